@@ -128,7 +128,7 @@ PROPS = {
     ),
     'C15': dict(
         monitor_quick=[PR + 'noise_gauss'],
-        functions=[PR + 'noise_gauss'],
+        functions=[PR + 'noise_gauss', WV + 'noise'],
         level='proof',
         explanation=("Proved: numpy.random.normal is called exactly once with loc = 0, size = len(a) and scale = "
                      "sqrt(mean(a^2)/SNR) (SNR = 10^(snr/10) or snr; element-wise for array snr; std when snr is None) as a symbolic "
@@ -257,7 +257,9 @@ PROPS = {
     ),
     'C08': dict(
         monitor_quick=WEAVER_MUTATORS,
-        functions=WEAVER_MUTATORS,
+        # the ten domain operations transform both series alike; the reshaping operations (recreate, match, smooth, noise,
+        # interpolate) leave the reference alone
+        functions=WEAVER_MUTATORS + [WV + m for m in ('recreate_from_average', 'integral_match', 'smooth', 'noise')],
         select=[('', r'(sync|ensures::(?!restore_like_new))')],
         level='proof',
         explanation=("Invariant rule over histories: `in_sync` (working == reference) is established by the constructor and preserved by "
